@@ -24,7 +24,7 @@ def fieldErrs (O : Oracles) (opts : DeserOpts) (cls : FieldDecl) (doc : PyVal) :
           match lookup name kw with
           | none => none
           | some v => match deser O opts c.ignoreNone f v with
-            | .error e => some (if !truthy v && collectable e then "InvalidStructureErr" else errName e)
+            | .error e => some (errName e)
             | .ok y => match (if y.isNone && c.ignoreNone && !c.required.contains name then .ok y else validate O f y) with
               | .error e => some (errName e)
               | .ok _ => none)
